@@ -22,13 +22,13 @@ PLACEHOLDER = "qqmodqq"  # module name inside corpus specs (upper-cased for the 
 
 
 def corpus_specs():
-    """corpus/C04/*.jsonl lines of the form {"spec": AppSpec, "note": ...}: hand-minimised applications that always run first"""
+    """corpus/C04/apps*.jsonl lines of the form {"spec": AppSpec, "note": ...}: hand-minimised applications that always run first"""
     here = os.path.dirname(os.path.dirname(os.path.abspath(__file__)))
     d = os.path.join(here, "corpus", "C04")
     out = []
     if os.path.isdir(d):
         for fn in sorted(os.listdir(d)):
-            if fn.endswith(".jsonl"):
+            if fn.startswith("apps") and fn.endswith(".jsonl"):
                 for l in open(os.path.join(d, fn)):
                     if l.strip() and '"spec"' in l:
                         out.append(l.strip())
